@@ -309,6 +309,22 @@ def generate(rng, tier):
     for S, D in set(PAIRS):
         for sg in (2, 6, 4, 12, D, 2 * D, D * D, S // D if S // D > 1 else 2):
             yield Case("f.viabase", [S, D, hx(sg), dec(1)]); yield Case("f.viabase", [S, D, hx(-sg), dec(-3)])
+    # ---- exact zeros of every origin (literal, default, from_parts(0,k), a-a, 0*a, -0, parsed; precision 0
+    #      and > 0) through every producer in its by-value / by-reference / compound-assignment forms
+    #      (<< >> <<= >>=, * *=, + - += -= with zero, neg, abs, / /=, sqr, cubic, sqrt, powi, trunc…round,
+    #      clone(_from), with_precision / with_rounding / with_base): each result must be the canonical zero
+    #      (exponent 0), == / cmp Equal to ZERO both ways, strictly between -1 and 1, same numeric hash
+    ZTAGS = ["2", "2d", "10", "10c", "16", "3"]
+    for tag in ZTAGS:
+        for p in (0, 1, 2, 4, 5, 9, 40):
+            for x, k in ((1, 1), (-1, -9), (123, 4), ((1 << 88) + 1, 0), (1000, -2), (0, 3)):
+                yield Case("f.zero", [tag, dec(p), hx(x), dec(k)])
+    for _ in range(60 if quick else 3000):
+        x = rng.choice([1, 3, 10, 16, rng.getrandbits(rng.choice([4, 30, 64, 65, 130, 200])) + 1])
+        if rng.random() < 0.5:
+            x = -x
+        yield Case("f.zero", [rng.choice(ZTAGS), dec(rng.choice([0, 0, 1, 2, 3, 7, 19, 20, 64, 100])), hx(x),
+                              dec(rng.choice([0, 1, -1, 5, -7, 63, -64, 1000, -1000, rng.randrange(-300, 300)]))])
     # ---- the same float / rational by several routes
     for _ in range(200 if quick else 6000):
         nd = rng.choice([1, 2, 3, 9, 19, 20, 38, 39, 40, 60])
@@ -382,7 +398,7 @@ RULE = ("integers: values of exactly 0..6,9 (thorough ..100) words in the C09 bi
         "one rational built by 16 / 15 routes (trailing-zero significands, precision changes incl. unlimited, +0, *1, shifts, "
         "parsing, integer conversion, rounding-mode change; non-reduced and signed parts, arithmetic round trips, parsing, "
         "Relaxed->canonicalize) whose representations must be the normalised / reduced one and pairwise ==, cmp Equal (and, for "
-        "RBig, hash-identical). `f.subcmp`: differences of equal-signed operands that keep the spare (p+1-st) digit, compared with values at the exponent thresholds of the precision shortcut and with neighbours; `f.viabase`: floats of base 16/8/4/9/27/100 with significands 2^j*odd, odd, multiples of the base, zero, converted exactly to the root base (with_base_and_precision, with_base, to_binary) — normalised, ==, cmp Equal to from_parts in the target base; every float the harness receives back is checked for normalisation (`!unnormalized` marker). Non-trivial := an integer operand above one word, "
+        "RBig, hash-identical). `f.subcmp`: differences of equal-signed operands that keep the spare (p+1-st) digit, compared with values at the exponent thresholds of the precision shortcut and with neighbours; `f.viabase`: floats of base 16/8/4/9/27/100 with significands 2^j*odd, odd, multiples of the base, zero, converted exactly to the root base (with_base_and_precision, with_base, to_binary) — normalised, ==, cmp Equal to from_parts in the target base; every float the harness receives back is checked for normalisation (`!unnormalized` marker). `f.zero`: exact zeros of every origin (literal, default, from_parts(0,k), a-a, 0*a, -0, parsed; unlimited and limited precision; bases 2/10/16/3, five rounding modes) through every FBig producer in by-value / by-reference / compound-assignment form (shifts, mul, add/sub of zero, neg, abs, div, sqr, cubic, sqrt, powi, trunc..round, clone_from, with_precision/rounding/base) — each result must be significand 0 exponent 0, ==/cmp Equal to ZERO both ways, strictly between -1 and 1, same numeric hash feed. Non-trivial := an integer operand above one word, "
         "every float/rational case; distinct := distinct (op,args) lines.")
 
 REFINED = [
